@@ -33,8 +33,9 @@ cannot justify.  A response without notes is proved to be exactly the semantics
   `excl-excluded-unread`  `expandExclusion` never reads `excludedUsers` of its operands               (LU-H)
   `excl-cycle`     the subtracted operand reported a cycle ⇒ the exclusion returns nothing and drops
                    the errors of both operands                                                      (F1 analogue)
-  `excl-sub-cut`   (no defect by itself) the subtracted operand was cut by the cycle guard below a
-                   rewrite that drops `hasCycle`; its entries are relative to the current path
+  `excl-sub-cut`   (no defect by itself) the subtracted operand was cut by the cycle guard at a sub-problem
+                   of the exclusion's own path (negation through recursion) below a rewrite that drops
+                   `hasCycle`; its entries are relative to that path
   `union-excl-lost` / `union-excl-overcount`   `expandUnion` keeps an exception from the wildcard only
                    when its `excludedUsers` occurrences, counted per entry, equal the operand count  (LU-E)
   `inter-no-ignored` / `inter-excluded-has`    `expandIntersection` reads `excludedUsers` only        (LU-I)
@@ -67,12 +68,12 @@ inductive ErrKind where
   deriving DecidableEq, Repr
 
 /-- `expandResponse` plus what was written to the channel -/
-structure Resp (K : Type) where
+structure Resp (N K : Type) where
   found : List (Found K) := []
   cycle : Bool := false
-  /-- ghost: some sub-problem below was cut by the cycle guard (the Go code forgets this in
-  `expandTTU`, `expandUnion`, `expandIntersection`, `expandExclusion`) -/
-  cut : Bool := false
+  /-- ghost: the sub-problems at which the cycle guard cut the expansion below (the Go code forgets
+  `hasCycle` in `expandTTU`, `expandUnion`, `expandIntersection`, `expandExclusion`) -/
+  cutAt : List N := []
   errs : List ErrKind := []
   notes : List String := []
 
@@ -243,38 +244,40 @@ end reducers
 /-! ### response builders (shared by the relation and the executable instance) -/
 
 section builders
-variable {K : Type} [DecidableEq K]
+variable {N K : Type} [DecidableEq N] [DecidableEq K]
 
-def sendResp (ks : List K) : Resp K := { found := ks.map (fun k => { user := k }) }
-def failResp : Resp K := { errs := [.cond] }
-def noteResp (s : String) : Resp K := { notes := [s] }
-def abortResp : Resp K := { errs := [.abort] }
-def depthResp : Resp K := { errs := [.depth] }
+def sendResp (ks : List K) : Resp N K := { found := ks.map (fun k => { user := k }) }
+def failResp : Resp N K := { errs := [.cond] }
+def noteResp (s : String) : Resp N K := { notes := [s] }
+def abortResp : Resp N K := { errs := [.abort] }
+def depthResp : Resp N K := { errs := [.depth] }
 /-- `enteredCycle(req)`: `hasCycle: true`, nothing written -/
-def cycleResp : Resp K := { cycle := true, cut := true }
+def cycleResp (n : N) : Resp N K := { cycle := true, cutAt := [n] }
 
 /-- `expandDirect` / `expandTTU` / `expand`: everything into the same channel, errors joined,
 `hasCycle` kept (`expandDirect`, computed userset) or forgotten (`expandTTU`) -/
-def bagResp (wk : K) (keep : Bool) (rs : List (Resp K)) : Resp K :=
-  { found := rs.flatMap (·.found), cycle := keep && rs.any (·.cycle), cut := rs.any (·.cut),
+def bagResp (wk : K) (keep : Bool) (rs : List (Resp N K)) : Resp N K :=
+  { found := rs.flatMap (·.found), cycle := keep && rs.any (·.cycle), cutAt := rs.flatMap (·.cutAt),
     errs := rs.flatMap (·.errs), notes := rs.flatMap (·.notes) ++ bagNotes wk (rs.map (·.found)) }
 
-def unionResp (wk : K) (rs : List (Resp K)) : Resp K :=
-  { found := unionR (rs.map (·.found)), cut := rs.any (·.cut), errs := rs.flatMap (·.errs),
+def unionResp (wk : K) (rs : List (Resp N K)) : Resp N K :=
+  { found := unionR (rs.map (·.found)), cutAt := rs.flatMap (·.cutAt), errs := rs.flatMap (·.errs),
     notes := rs.flatMap (·.notes) ++ unionNotes wk (rs.map (·.found)) }
 
-def interResp (wk : K) (rs : List (Resp K)) : Resp K :=
-  { found := interR wk (rs.map (·.found)), cut := rs.any (·.cut), errs := rs.flatMap (·.errs),
+def interResp (wk : K) (rs : List (Resp N K)) : Resp N K :=
+  { found := interR wk (rs.map (·.found)), cutAt := rs.flatMap (·.cutAt), errs := rs.flatMap (·.errs),
     notes := rs.flatMap (·.notes) ++ interNotes wk (rs.map (·.found)) }
 
 /-- `if subtractHasCycle { return expandResponse{err: nil} }` -/
-def diffCycleResp (rb rs : Resp K) : Resp K :=
-  { cut := true, notes := rb.notes ++ rs.notes ++ ["excl-cycle"] }
+def diffCycleResp (rb rs : Resp N K) : Resp N K :=
+  { cutAt := rb.cutAt ++ rs.cutAt, notes := rb.notes ++ rs.notes ++ ["excl-cycle"] }
 
-def diffResp (wk : K) (isWild : K → Bool) (rb rs : Resp K) (bm sm : List (Found K)) : Resp K :=
-  { found := exclR wk isWild bm sm, cut := rb.cut || rs.cut, errs := rb.errs ++ rs.errs,
+/-- `V`: the path of the exclusion itself.  `excl-sub-cut`: the subtracted operand was cut at a
+sub-problem of that path, i.e. it depends (negatively) on a sub-problem that is still being expanded. -/
+def diffResp (wk : K) (isWild : K → Bool) (V : List N) (rb rs : Resp N K) (bm sm : List (Found K)) : Resp N K :=
+  { found := exclR wk isWild bm sm, cutAt := rb.cutAt ++ rs.cutAt, errs := rb.errs ++ rs.errs,
     notes := rb.notes ++ rs.notes ++ clashNote rb.found ++ clashNote rs.found ++ exclNotes wk bm sm ++
-      unreadNote rb.found ++ unreadNote rs.found ++ noteIf rs.cut "excl-sub-cut" }
+      unreadNote rb.found ++ unreadNote rs.found ++ noteIf (rs.cutAt.any (fun n => V.contains n)) "excl-sub-cut" }
 
 /-- what `ListUsers` returns -/
 structure Answer (K : Type) where
@@ -282,15 +285,15 @@ structure Answer (K : Type) where
   errs : List ErrKind
   notes : List String
 
-def answerOf (r : Resp K) (m : List (Found K)) : Answer K :=
+def answerOf (r : Resp N K) (m : List (Found K)) : Answer K :=
   { users := finalOf m, errs := r.errs, notes := r.notes ++ clashNote r.found }
 
 end builders
 
 /-! ### the expansion as a relation: every schedule -/
 
-inductive Expand {N K : Type} [DecidableEq K] (sys : LSys N K) (limit : Nat) :
-    Nat → List N → LExpr N K → Resp K → Prop
+inductive Expand {N K : Type} [DecidableEq N] [DecidableEq K] (sys : LSys N K) (limit : Nat) :
+    Nat → List N → LExpr N K → Resp N K → Prop
   /-- model only: evaluation abandoned (fuel of the executable instance) -/
   | abort {d V} (e : LExpr N K) : Expand sys limit d V e abortResp
   | send {d V} (ks : List K) : Expand sys limit d V (.send ks) (sendResp ks)
@@ -299,30 +302,30 @@ inductive Expand {N K : Type} [DecidableEq K] (sys : LSys N K) (limit : Nat) :
   /-- `req.depth >= l.resolveNodeLimit` -/
   | node_depth {d V} (n : N) : d ≥ limit → Expand sys limit d V (.node n) depthResp
   /-- `enteredCycle(req)`: the per-path visited set -/
-  | node_cycle {d V} (n : N) : d < limit → n ∈ V → Expand sys limit d V (.node n) cycleResp
-  | node_eval {d V} (n : N) (r : Resp K) : d < limit → n ∉ V →
+  | node_cycle {d V} (n : N) : d < limit → n ∈ V → Expand sys limit d V (.node n) (cycleResp n)
+  | node_eval {d V} (n : N) (r : Resp N K) : d < limit → n ∉ V →
       Expand sys limit (d + 1) (n :: V) (sys.rule n) r → Expand sys limit d V (.node n) r
-  | bag {d V} (keep : Bool) (es : List (LExpr N K)) (rs : List (Resp K)) : rs.length = es.length →
+  | bag {d V} (keep : Bool) (es : List (LExpr N K)) (rs : List (Resp N K)) : rs.length = es.length →
       (∀ i (h1 : i < es.length) (h2 : i < rs.length), Expand sys limit d V es[i] rs[i]) →
       Expand sys limit d V (.bag keep es) (bagResp sys.wk keep rs)
-  | union {d V} (es : List (LExpr N K)) (rs : List (Resp K)) : rs.length = es.length →
+  | union {d V} (es : List (LExpr N K)) (rs : List (Resp N K)) : rs.length = es.length →
       (∀ i (h1 : i < es.length) (h2 : i < rs.length), Expand sys limit d V es[i] rs[i]) →
       Expand sys limit d V (.union es) (unionResp sys.wk rs)
-  | inter {d V} (es : List (LExpr N K)) (rs : List (Resp K)) : rs.length = es.length →
+  | inter {d V} (es : List (LExpr N K)) (rs : List (Resp N K)) : rs.length = es.length →
       (∀ i (h1 : i < es.length) (h2 : i < rs.length), Expand sys limit d V es[i] rs[i]) →
       Expand sys limit d V (.inter es) (interResp sys.wk rs)
-  | diff_cycle {d V} (b s : LExpr N K) (rb rs : Resp K) :
+  | diff_cycle {d V} (b s : LExpr N K) (rb rs : Resp N K) :
       Expand sys limit d V b rb → Expand sys limit d V s rs → rs.cycle = true →
       Expand sys limit d V (.diff b s) (diffCycleResp rb rs)
   /-- the two maps are filled by assignment: any survivor per key -/
-  | diff {d V} (b s : LExpr N K) (rb rs : Resp K) (bm sm : List (Found K)) :
+  | diff {d V} (b s : LExpr N K) (rb rs : Resp N K) (bm sm : List (Found K)) :
       Expand sys limit d V b rb → Expand sys limit d V s rs → rs.cycle = false →
       IsMapOf rb.found bm → IsMapOf rs.found sm →
-      Expand sys limit d V (.diff b s) (diffResp sys.wk sys.isWild rb rs bm sm)
+      Expand sys limit d V (.diff b s) (diffResp sys.wk sys.isWild V rb rs bm sm)
 
 /-- `ListUsers` after the pruning test, every schedule: the expansion of the root and any survivor
 map of `foundUsersUnique` -/
-def ListUsersRel {N K : Type} [DecidableEq K] (sys : LSys N K) (limit : Nat) (root : N) (a : Answer K) : Prop :=
+def ListUsersRel {N K : Type} [DecidableEq N] [DecidableEq K] (sys : LSys N K) (limit : Nat) (root : N) (a : Answer K) : Prop :=
   ∃ r m, Expand sys limit 0 [] (.node root) r ∧ IsMapOf r.found m ∧ a = answerOf r m
 
 /-! ### executable evaluation, one schedule -/
@@ -331,7 +334,7 @@ structure Sched where
   lastWins : Bool := true
 
 def expandF {N K : Type} [DecidableEq N] [DecidableEq K] (sys : LSys N K) (limit : Nat) (sc : Sched) :
-    Nat → Nat → List N → LExpr N K → Resp K
+    Nat → Nat → List N → LExpr N K → Resp N K
   | 0, _, _, _ => abortResp
   | fuel + 1, d, V, e =>
     match e with
@@ -340,7 +343,7 @@ def expandF {N K : Type} [DecidableEq N] [DecidableEq K] (sys : LSys N K) (limit
     | .note s => noteResp s
     | .node n =>
       if d ≥ limit then depthResp
-      else if n ∈ V then cycleResp
+      else if n ∈ V then cycleResp n
       else expandF sys limit sc fuel (d + 1) (n :: V) (sys.rule n)
     | .bag keep es => bagResp sys.wk keep (es.map (expandF sys limit sc fuel d V))
     | .union es => unionResp sys.wk (es.map (expandF sys limit sc fuel d V))
@@ -349,7 +352,7 @@ def expandF {N K : Type} [DecidableEq N] [DecidableEq K] (sys : LSys N K) (limit
       let rb := expandF sys limit sc fuel d V b
       let rs := expandF sys limit sc fuel d V s
       if rs.cycle then diffCycleResp rb rs
-      else diffResp sys.wk sys.isWild rb rs (mapOf sc.lastWins rb.found) (mapOf sc.lastWins rs.found)
+      else diffResp sys.wk sys.isWild V rb rs (mapOf sc.lastWins rb.found) (mapOf sc.lastWins rs.found)
 
 def listUsersF {N K : Type} [DecidableEq N] [DecidableEq K] (sys : LSys N K) (limit : Nat) (sc : Sched)
     (fuel : Nat) (root : N) : Answer K :=
